@@ -24,7 +24,9 @@ T9 == Tiny(1000)
 CmToM(c) == <<c * 100, 0>>
 ProfileC(d) ==
   LET n == Len(d.dzcm) IN
-  [ runningSum |-> \A i \in 1..n : d.dzsumcm[i] = CumTo(d.dzcm, i),
+  [ finite     |-> AllFinite(d.dry) /\ AllFinite(d.wp) /\ AllFinite(d.fc) /\ AllFinite(d.sat) /\ AllFinite(d.tau) /\ AllFinite(d.ksat)
+                   /\ AllFinite(d.pen) /\ AllFinite(d.zbot) /\ AllFinite(d.ztop) /\ AllFinite(d.zmid),
+    runningSum |-> \A i \in 1..n : d.dzsumcm[i] = CumTo(d.dzcm, i),
     bottoms    |-> \A i \in 1..n : Near(d.zbot[i], CmToM(CumTo(d.dzcm, i)), T9),
     tops       |-> \A i \in 1..n : Near(d.ztop[i], CmToM(CumTo(d.dzcm, i) - d.dzcm[i]), T9),
     mids       |-> \A i \in 1..n : Near(Add(d.zmid[i], d.zmid[i]), CmToM(2 * CumTo(d.dzcm, i) - d.dzcm[i]), T9),
